@@ -554,6 +554,8 @@ class MultiVector:
             )
 
         ll = ll.e
+        if getattr(ll, 'ndim', None) == 0 and hasattr(ll, 'item'):
+            ll = ll.item()  # A numpy scalar (np.int64, np.float32, ...) is a number like any other.
         if sqrt is None and cosh is None and sinhc is None:
             if isinstance(ll, Expr):
                 sqrt = lambda x: (-x) ** 0.5
